@@ -198,6 +198,20 @@ def case_split_file(c):
                             break
                         if not _check_piece_frame(fr, hdr, pay, a, b, T, V, 'split_waterfall_generator', 'piece %d' % i):
                             break
+                        # the stand-alone helpers describe the PIECE (as the frame loaded from it does), not the whole file
+                        try:
+                            hfs = np.asarray(stg.get_fs(wf), dtype=float) * 1e6
+                            ffs = np.asarray(fr.fs, dtype=float)
+                            if hfs.shape != (fchans,) or float(np.abs(np.sort(hfs) - ffs).max()) > 8 * ulp(float(np.abs(ffs).max())) + 1e-9 * abs(hdr['foff']) * 1e6:
+                                V('get_fs', 'piece_frequencies', 'piece %d: get_fs(piece) has %d values %r..%r Hz; the frame loaded from the piece has %d channels %r..%r'
+                                  % (i, hfs.size, float(np.min(hfs)), float(np.max(hfs)), ffs.size, float(ffs[0]), float(ffs[-1])))
+                                break
+                            if np.asarray(stg.get_data(wf)).shape != (T, fchans) or len(stg.get_ts(wf)) != T:
+                                V('get_data', 'piece_shape', 'piece %d: get_data / get_ts shapes %s / %d' % (i, np.asarray(stg.get_data(wf)).shape, len(stg.get_ts(wf))))
+                                break
+                        except Exception as e:
+                            V('get_fs', 'raised', 'piece %d: %s: %s' % (i, type(e).__name__, e))
+                            break
                     if len(wins) >= 2 or (fchans < nchans):
                         nontriv.append(engine.sha([nchans, foff, fch1, fchans, shift, tch]))
                     outcomes.add('pieces=%d/%s' % (min(len(res), 6), 'gap' if s > fchans else ('overlap' if s < fchans
